@@ -97,6 +97,7 @@ def gen_header(rng, hcls, payload_cls, correlation_id=None):
     return dataclasses.replace(h, **repl) if repl else h
 
 
+_HUGE_SHAPE = {"name": "huge", "fan": 1, "str": "huge", "null_rate": 0.05, "nondefault_rate": 0.7, "budget": 20}
 _BIG_SHAPE = {"name": "big", "fan": 2, "str": "big", "null_rate": 0.1, "nondefault_rate": 0.7, "budget": 30}
 
 
@@ -110,7 +111,13 @@ def gen_message(rng, big_ok: bool = True) -> dict:
         cls = (t["req"] if rng.random() < 0.5 else t["resp"])[key]
         hcls = cls.__header_schema__
         # now and then a payload with one very large chunk (>= 16 KiB string/bytes/records)
-        payload = gen.gen_instance(rng, cls, _BIG_SHAPE if (big_ok and rng.random() < 0.08) else _small_shape(rng))
+        r2 = rng.random()
+        shape = _small_shape(rng)
+        if big_ok and r2 < 0.08:
+            shape = _BIG_SHAPE
+        elif big_ok and r2 < 0.10:
+            shape = _HUGE_SHAPE  # a blob of 64 KiB or more (strings in it stay small)
+        payload = gen.gen_instance(rng, cls, shape)
         header = gen_header(rng, hcls, cls)
         return {"entities": [[universe.qualname(hcls), gen.to_tree(header)], [universe.qualname(cls), gen.to_tree(payload)]],
                 "size_prefix": rng.random() < 0.5}
@@ -328,8 +335,9 @@ def gen_l1(rng) -> dict:
     mode = rng.choice(streams.CHUNK_MODES)
     ch = streams.rng_chunker(rng, mode)
     chunks = [ch(64) for _ in range(rng.randint(0, 200))]
-    cfg = {"bufsize": rng.choice((1, 2, 7, 16, 64, 8192)), "net_seed": rng.getrandbits(48),
-           "segmentation": rng.choice(("byte", "small", "any", "any", "whole")), "high_water": rng.choice((1, 64, 4096, 65536)),
+    total = sum(len(core.canon(m)) for m in msgs) // 2  # rough size of the history in bytes
+    cfg = {"bufsize": rng.choice((1, 2, 7, 16, 64, 8192) if total < 20000 else (64, 8192)), "net_seed": rng.getrandbits(48),
+           "segmentation": rng.choice(("byte", "small", "any", "any", "whole") if total < 20000 else ("any", "whole")), "high_water": rng.choice((1, 64, 4096, 65536)),
            "chunks": chunks, "chunk_mode": mode}
     sc = {"layer": "L1", "messages": msgs, "g0": g0.hex(), "g1": g1.hex(), "cfg": cfg, "fault": None}
     if rng.random() < 0.5:
